@@ -101,6 +101,8 @@ def gen_client(rng, n_ops, soak=False):
             lines.append("send " + apci.asdu(45, 6, 1, bytes([sid & 255, sid >> 8 & 255, 0, 1]) + bytes(rng.choice([0, 0, 50, 239]))).hex())
             sid += 1
         elif r < 55:
+            if rng.chance(1, 3):    # the application answers from inside the received-ASDU callback
+                lines.append("cbsend 1")
             lines.append("rxi %s" % peer_asdu(pid, rng.choice([0, 3, 200, 241])).hex())
             pid += 1
             lines.append("step")
